@@ -29,6 +29,12 @@ RULE = ('fan-out: the real Tracer/Logger/Meter providers, contexts, MultiSpanPro
         'non-trivial = at least two children and at least two flush/shutdown/destroy ops')
 
 LAYERS = ('ms', 'tp', 'ml', 'lp', 'mp')
+# how a provider is built: from a context (plain), the vector-of-processors constructor (v), the single-processor constructor +
+# AddProcessor for the rest (p), the default constructor + AddProcessor (d); MeterProvider: default, from a MeterContext (c), the
+# (views, resource) constructor (v).  "The provider that owns them" is whichever of these the application used.
+HOW = {'ms': [''], 'ml': ['', 'f'], 'tp': ['', 'v', 'p', 'f', 'g'], 'lp': ['', 'v', 'p', 'd', 'f', 'g'], 'mp': ['', 'c', 'v', 'f', 'g']}
+# f = through the factory (TracerProviderFactory / LoggerProviderFactory / MeterProviderFactory / MultiLogRecordProcessorFactory ::Create),
+# g = the provider's factory over the context's factory (TracerContextFactory / LoggerContextFactory / MeterContextFactory)
 
 
 def _case(line, *tags, origin='gen'):
@@ -50,6 +56,13 @@ def corpus():
         c.append(_case(f'fan {l} {kinds} ; e ; fm ; e ; fl ; sm ; fm ; sm ; e ; d ; fm', 'corpus', 'all-layers', origin='corpus'))
         c.append(_case(f'fan {l} - ; fm ; sm ; d', 'corpus', 'no-children', origin='corpus'))
         c.append(_case(f'fan {l} {kinds} ; e ; e', 'corpus', 'destroy-only', origin='corpus'))
+        for h in HOW[l][1:]:
+            c.append(_case(f'fan {l}{h} {kinds} ; e ; fm ; e ; fl ; sm ; fm ; sm ; e ; d ; fm', 'corpus', 'all-constructors', origin='corpus'))
+            c.append(_case(f'fan {l}{h} - ; fm ; sm ; d', 'corpus', 'all-constructors', origin='corpus'))
+    # a failing child behind every constructor: the result is the conjunction, every child is still called
+    c.append(_case('fan tpv r:f:-,r:-:- ; fm ; sm', 'corpus', 'all-constructors', origin='corpus'))
+    c.append(_case('fan tpp r:-:-,r:f:f,r:-:- ; fm ; sm', 'corpus', 'all-constructors', origin='corpus'))
+    c.append(_case('fan lpd r:-:f,r:-:- ; fm ; sm', 'corpus', 'all-constructors', origin='corpus'))
     c.append(_case('fan ml r:T:-,r:-:-,r:-:- ; fk ; fz ; fl ; fm', 'corpus', 'deadline', origin='corpus'))
     c.append(_case('fan mp r:T:-,r:-:-,r:-:- ; fk ; fz ; fl ; fm ; sk ; sm', 'corpus', 'deadline', origin='corpus'))
     c.append(_case('fan mp r:-:tf,r:-:- ; sm ; c0 ; rs0 ; rs0 ; rf1 ; c1 ; sm ; fm', 'corpus', 'reader-direct', origin='corpus'))
@@ -93,7 +106,7 @@ def generate(rng, tier):
                 ops.append(rng.choice(['c', 'rs', 'rf']) + str(min(3, rng.randrange(0, max(1, n) + (1 if rng.random() < 0.1 else 0)))))
             else:
                 ops.append(rng.choice(['fm', 'sm', 'e']))
-        out.append(_case(f'fan {layer} {",".join(kids) or "-"} ; ' + ' ; '.join(ops), 'sequential', layer))
+        out.append(_case(f'fan {layer}{rng.choice(HOW[layer])} {",".join(kids) or "-"} ; ' + ' ; '.join(ops), 'sequential', layer))
     # the deadline arithmetic: short timeout, slow children (each slow call sleeps 25 ms)
     for _ in range(240 if big else 12):
         layer = rng.choice(['ml', 'lp', 'mp', 'ms'])
@@ -103,7 +116,7 @@ def generate(rng, tier):
             f = ''.join(rng.choice('tfTF' if rng.random() < 0.5 else 'tf') for _x in range(2))
             kids.append(f'r:{f}:-')
         ops = [rng.choice(['fk', 'fk', 'sk', 'fl', 'fz']) for _x in range(2)]
-        out.append(_case(f'fan {layer} {",".join(kids)} ; ' + ' ; '.join(ops), 'deadline', layer))
+        out.append(_case(f'fan {layer}{rng.choice(HOW[layer])} {",".join(kids)} ; ' + ' ; '.join(ops), 'deadline', layer))
     # real batch processors (worker threads) behind the providers
     for _ in range(4000 if big else 150):
         layer = rng.choice(['ms', 'tp', 'ml', 'lp'])
@@ -119,11 +132,11 @@ def generate(rng, tier):
         for _k in range(rng.randrange(2, 14)):
             r = rng.random()
             ops.append('e' if r < 0.5 else 'fm' if r < 0.75 else 'sm' if r < 0.93 else 'd')
-        out.append(_case(f'fan {layer} {",".join(kids)} ; ' + ' ; '.join(ops), 'real-batch', layer))
+        out.append(_case(f'fan {layer}{rng.choice(HOW[layer])} {",".join(kids)} ; ' + ' ; '.join(ops), 'real-batch', layer))
     # malformed
     for _ in range(40 if big else 10):
         out.append(_case(rng.choice(['fan xx - ; fm', 'fan tp r:t ; fm', 'fan mp s:-:- ; fm', 'fan tp b:t:- ; fm', 'fan tp r:-:- ; fq',
-                                     'fan tp r:-:- ; c9', 'fan tp r:x:- ; fm', 'fan tp r:-:-,r:-:-,r:-:-,r:-:-,r:-:- ; fm', 'fan tp']),
+                                     'fan tp r:-:- ; c9', 'fan tp r:x:- ; fm', 'fan tp r:-:-,r:-:-,r:-:-,r:-:-,r:-:- ; fm', 'fan tp', 'fan tpd - ; fm', 'fan msv - ; fm', 'fan mpp - ; fm']),
                          'malformed'))
     return out
 
@@ -135,7 +148,7 @@ class Parsed:
     def __init__(self, line, out):
         toks = line.split(' ; ')
         head = toks[0].split()
-        self.layer = head[1]
+        self.layer = head[1][:2]          # the suffix says how the provider was built; the clauses are the same
         self.kinds = [] if head[2] == '-' else [k.split(':')[0] for k in head[2].split(',')]
         self.ops = toks[1:]
         self.segs = []
